@@ -66,7 +66,7 @@ def main():
         finally:
             subprocess.run(["git", "-C", "/repo", "worktree", "remove", "--force", wt], capture_output=True)
         after = run("/repo", w, kf["property"])
-        good = bool(before.get("failures")) and after.get("failures") == [] and not after.get("discard") and "harness" not in after
+        good = bool(before.get("failures")) and after.get("failures") == [] and (not after.get("discard") or str(after.get("discard")).startswith("ref-reject:")) and "harness" not in after
         ok &= good
         print(("OK  " if good else "BAD "), kf["id"], kf["commit"], "| before:", before.get("failures") or before, "| after:", after)
     return 0 if ok else 1
